@@ -10,16 +10,47 @@ BASE_TRUST = ("relation predicates and reference models under /verif/mc (written
               "(NUMBA_DISABLE_JIT=1), bound to compiled mode by the C15 differential check")
 
 # id -> (level, technique, text, note, design_ref, engine)
+SOLVE_T = "exhaustive enumeration of a finite problem universe x configurations through the real solver, with interposition monitors (SolveMC)"
+PROP_T = "exhaustive small-scope enumeration of real filtering calls vs truth-table oracle (PropMC)"
 CHECKS = {
-    "C05": (MC, "exhaustive small-scope enumeration of real filtering calls vs truth-table oracle (PropMC)",
+    "C01": (MC, SOLVE_T + "; oracle = independent relation predicates on every delivered vector",
+            "every problem of the universe U (single constraints in every sharing layout, constraint pairs, toy shipped models, "
+            "adversarial structures) is run under every configuration, enumerating and optimising, and every vector handed to the "
+            "caller is checked against domains, offsets and all posted relations",
+            BASE_TRUST, "3 C01, 2.5, 2.8", "SolveMC"),
+    "C02": (MC, SOLVE_T + "; oracle = brute-force solution multiset; all posting permutations",
+            "find_all of every problem of U under every configuration and posting order is compared as a multiset with an "
+            "independent enumeration of the cartesian product", BASE_TRUST, "3 C02, 2.5, 2.8", "SolveMC"),
+    "C03": (MC, SOLVE_T + "; oracle = brute-force optimum + restart-state invariant + step budgets",
+            "minimize/maximize of every variable of every problem of U under every configuration; the restart history is observed "
+            "by interposing reset/decrease_max/increase_min", BASE_TRUST, "3 C03, 2.9", "SolveMC"),
+    "C04": (MC, "PropMC under a deterministic jump budget + SolveMC with per-pass execution bound, run budget and heuristic-answer validation",
+            "bounded liveness: every filtering call of the contract table and every solver run on U is executed under deterministic "
+            "step budgets (sys.monitoring loop-iteration counts; (P+1)(D+1) executions per pass)", BASE_TRUST, "3 C04, 2.9", "PropMC+SolveMC"),
+    "C05": (MC, PROP_T,
             "every (type, arity, parameter vector, box) of the contract table is executed on the real propagator and compared "
             "with the brute-force solution set of the box: a coverage statement over the whole small scope, not a sample",
             BASE_TRUST, "3 C05, 2.3, 2.7", "PropMC"),
+    "C06": (MC, PROP_T + "; every ground tuple and every box collapsed to a point by one call",
+            "every ground tuple of the value cube and every enumerated box that one call collapses to a point is judged by the "
+            "independent relation predicate", BASE_TRUST, "3 C06, 2.3", "PropMC"),
+    "C12": (MC, "exhaustive enumeration of Problem.split over domains x k x layouts; partition laws + find_all of every part",
+            "all [a,b] x k x variable position / sharing layouts up to the bound; deep comparison of original and parts; the "
+            "disjoint union of the parts' solutions equals the original solution set", BASE_TRUST, "3 C12", "SplitMC"),
+    "C14": (MC, PROP_T + "; oracle = exact bounds hull, second call, one-round interval reference for affine_eq",
+            "for the 17 documented bound-consistent propagators every enumerated call must return exactly the hull and be idempotent; "
+            "affine_eq must return the one-round interval box", BASE_TRUST, "3 C14, 2.3", "PropMC"),
+    "C17": (MC, SOLVE_T + "; oracle = event counts observed by interposition + conservation laws",
+            "each of the 13 statistics is compared with the count of real events seen by wrappers around every propagator, "
+            "heuristic, consistency algorithm, backtrack, cp_put and shave_bound, on exhaustive, partial and optimisation runs",
+            BASE_TRUST, "3 C17", "SolveMC"),
 }
 
 NOT_YET = {}
 
 ENGINES = [
+    {"name": "SolveMC", "path": "mc/solvemc.py", "kind_free_text": "exhaustive enumeration of a finite problem universe x solver configurations through the public API of the real solver, monitors interposed on every engine seam"},
+    {"name": "SplitMC", "path": "mc/props/C12.py", "kind_free_text": "exhaustive enumeration of the pure function Problem.split"},
     {"name": "PropMC", "path": "mc/propmc.py", "kind_free_text": "exhaustive input enumeration of single filtering calls of the real propagators against a truth-table oracle"},
 ]
 
